@@ -519,7 +519,7 @@ var realClients = []string{"none", "trusted", "sigonly", "untrusted", "expired",
 	"clionly", "wrongkey", "mixed", "mixedexp", "p256"}
 
 var scriptClients = []string{"s-good", "s-nocv", "s-cvotherkey", "s-cvothertr", "s-cvnocert", "s-cvnomsg",
-	"s-unreq", "s-nomsg", "s-onecert", "s-edsig", "s-garbage", "s-badfin", "s-untrusted-nocv", "s-empty"}
+	"s-unreq", "s-nomsg", "s-onecert", "s-onecert-nocv", "s-edsig", "s-garbage", "s-badfin", "s-untrusted-nocv", "s-empty"}
 
 func generate(o hx.Opts) []scen {
 	var out []scen
